@@ -284,14 +284,16 @@ async fn run_case(c: &ConvCase, mode: Mode, info: &mut CaseInfo) -> CheckResult 
         info.excluded.push("concurrent-rewrite-and-password-change".into());
         return Ok(());
     }
-    if c.offline.iter().flatten().any(|e| matches!(e, Edit::ChangeFolderPassword { .. })) {
-        for d in 0..ndev {
-            let a = w.devices[d].account.lock().await;
-            let logs = all_logs(&*a).await?;
-            if logs.values().any(|l| crate::prop_c04::has_repeated_hash(l)) {
-                info.excluded.push("repeated-event-hash+folder-password-change".into());
-                return Ok(());
-            }
+    // known C04 root cause (events addressed by hash, see known_findings.json): once a log holds
+    // one hash twice, diffs / rewinds / scans pick the wrong occurrence and merges go wrong in
+    // many ways (a deleted folder that stays without its password, a folder log paired with the
+    // wrong key, ...) - such histories are excluded by construction and counted
+    for d in 0..ndev {
+        let a = w.devices[d].account.lock().await;
+        let logs = all_logs(&*a).await?;
+        if logs.values().any(|l| crate::prop_c04::has_repeated_hash(l)) {
+            info.excluded.push("repeated-event-hash-within-a-log".into());
+            return Ok(());
         }
     }
     let mut order: Vec<usize> = c.order.iter().map(|x| (*x as usize) % ndev).collect();
